@@ -54,14 +54,9 @@ impl Bat {
     }
     /// Run one call into smoltcp. None = it panicked (failure recorded).
     fn call<T>(&mut self, what: &'static str, f: impl FnOnce() -> T) -> Option<T> {
-        // wall clock is used for hang detection only, never for decisions that
-        // influence generation
-        let t0 = std::time::Instant::now();
+        // non-termination is detected by the CPU-time watchdog armed around the whole battery
+        // (vkit::hang); a call that returns is never judged by how long it took
         let r = guarded(f);
-        let dt = t0.elapsed();
-        if dt.as_secs() >= 5 {
-            self.push(Fail::new(format!("{}:hang", self.ty), format!("{}::{} took {:?}", self.ty, what, dt)));
-        }
         match r {
             Ok(v) => Some(v),
             Err(p) => {
@@ -432,8 +427,17 @@ fn run_type(name: &'static str, src: &mut Src, ctx: &mut Ctx) -> Result<(), Fail
     let t = types().iter().find(|t| t.name == name).expect("type table");
     let skip = src.weighted(&[13, 1, 1, 1]);
     let data = gen_input(t, src, ctx);
-    evaluate(t, &data, skip, ctx)
+    vkit::hang::arm(src, "C07", name, t.name, HANG_KEY, HANG_CPU_MS);
+    let r = evaluate(t, &data, skip, ctx);
+    vkit::hang::disarm();
+    r
 }
+
+/// "Parsing always terminates": a battery (checked constructor, accessors, Repr parser,
+/// pretty-printer over at most 2048 octets) that consumes this much CPU time without
+/// returning does not terminate. Judged by the watchdog thread of vkit::hang.
+const HANG_CPU_MS: u64 = 5_000;
+const HANG_KEY: &str = "hang:view-battery-does-not-return";
 
 /// replay form of one exhaustively enumerated case:
 /// [type index, seed index, kind (0 truncate / 1 substitute), offset-or-length, byte value, skip]
@@ -457,7 +461,10 @@ fn seed_mut(src: &mut Src, ctx: &mut Ctx) -> Result<(), Fail> {
         d
     };
     let skip = src.usize(0, 7);
-    evaluate(t, &data, skip, ctx)
+    vkit::hang::arm(src, "C07", "seed_mut", t.name, HANG_KEY, HANG_CPU_MS);
+    let r = evaluate(t, &data, skip, ctx);
+    vkit::hang::disarm();
+    r
 }
 
 fn exhaustive_phase(env: &RunEnv) -> PhaseResult {
@@ -472,7 +479,9 @@ fn exhaustive_phase(env: &RunEnv) -> PhaseResult {
     let mut nseeds = 0u64;
     let mut run = |ti: usize, si: usize, kind: u64, off: usize, val: u8, data: &[u8], pr: &mut PhaseResult| {
         let t = &ts[ti];
+        vkit::hang::arm_tape(&[ti as u64, si as u64, kind, off as u64, val as u64, 0], "C07", "seed_mut", t.name, HANG_KEY, HANG_CPU_MS);
         let (out, fails) = collect(t, data);
+        vkit::hang::disarm();
         pr.evaluations += 1;
         if out.ok {
             pr.nontrivial += 1;
@@ -2337,11 +2346,14 @@ fn types() -> &'static Vec<TypeDef> {
         // self check of the seed table (a wrong seed is a bug of this module):
         // every seed must be non-empty and accepted by its own new_checked / parser.
         // Failures found on unmodified seeds are left to the checks themselves.
-        for ty in &t {
+        for (ti, ty) in t.iter().enumerate() {
             assert!(!ty.seeds.is_empty(), "no seeds for {}", ty.name);
-            for s in &ty.seeds {
+            for (si, s) in ty.seeds.iter().enumerate() {
                 assert!(!s.bytes.is_empty() && s.bytes.len() <= 2048, "bad seed length {}/{}", ty.name, s.name);
+                // the unmodified seed = its truncation at full length in the seed_mut replay form
+                vkit::hang::arm_tape(&[ti as u64, si as u64, 0, s.bytes.len() as u64, 0, 0], "C07", "seed_mut", ty.name, HANG_KEY, HANG_CPU_MS);
                 let (out, _) = collect(ty, &s.bytes);
+                vkit::hang::disarm();
                 assert!(out.ok, "seed {}/{} is not accepted by new_checked", ty.name, s.name);
                 for f in &s.fields {
                     assert!(f.off + f.nbytes as usize <= s.bytes.len(), "field {} outside seed {}/{}", f.name, ty.name, s.name);
